@@ -82,6 +82,11 @@ CHECKS = {
   text="A seeded shuffle of hostile requests (broken JSON, every field x every JSON type, numbers beyond 64-bit limits, skew/period extremes, unknown/contradictory suites, oversized bodies, every method x path, raw TCP fragments) is sent sequentially (server CPU time attributed per request: > 2 CPU-s is a violation) and on 32 connections; every response must be complete, 2xx only with the endpoint's success object; refused skews must not accept; probes judged by the C18 oracle must stay correct; the process must stay alive. Unbounded 'eventually' is not decidable by a run; a timeout with an idle server is inconclusive.",
   note="Trusted: Linux /proc CPU accounting (100 Hz ticks), Go net/http client. Work is measured in CPU time, not latency, so machine load cannot raise an alarm.",
   design="7/C19"),
+ "C20": dict(
+  technique="black-box differential monitor on the freshly built wasm module under Node 20 (through globalThis and through the package's exported object, by name) + native overlay build of the binding's Go sources",
+  text="otp.wasm is built from the working tree into a scratch copy of otp-js and driven under Node with a generated case list over the property's common domain; answers through both access paths are compared per exported name with the native library and the reference model (codes, verdicts at every window distance, URLs); malformed calls (every argument position x hostile JS values, too few/many arguments, range errors) must return 'error:…' and are followed by a known-answer probe; a thrown exception or missing result (Go runtime died) is a violation. The same Go sources are compiled natively through an overlay for a 10x larger differential.",
+  note="Trusted: Node 20 + wasm_exec.js of the toolchain, reference models. The committed otp-js/lib/otp.wasm artefact is not what is checked.",
+  design="7/C20"),
 }
 
 PENDING_REASON = "monitor not built yet in this revision of /verif (work in progress; see DESIGN.md section 7 for the planned runtime monitor)"
